@@ -37,6 +37,8 @@ func TestGvcBoundedSpans(t *testing.T) {
 	for _, n := range names {
 		ops = append(ops, gvcOp{true, n}, gvcOp{false, n})
 	}
+	// a column c of a table w that exists before the file and is never dropped: ADD/DROP COLUMN
+	ops = append(ops, gvcOp{true, "w.c"}, gvcOp{false, "w.c"})
 	knownHits, total := 0, 0
 	var rec func(seq []gvcOp)
 	check := func(seq []gvcOp, initial map[string]bool) {
@@ -70,12 +72,19 @@ func TestGvcBoundedSpans(t *testing.T) {
 		for _, n := range names {
 			tables[n] = schema.NewTable(n).SetSchema(sch).AddColumns(schema.NewIntColumn("id", "int"))
 		}
+		w := schema.NewTable("w").SetSchema(sch).AddColumns(schema.NewIntColumn("id", "int"))
+		wc := schema.NewIntColumn("c", "int")
 		f := &sqlcheck.File{File: migrate.NewLocalFile("1.sql", nil)}
 		for i, op := range seq {
 			var c schema.Change
-			if op.add {
+			switch {
+			case op.name == "w.c" && op.add:
+				c = &schema.ModifyTable{T: w, Changes: []schema.Change{&schema.AddColumn{C: wc}}}
+			case op.name == "w.c":
+				c = &schema.ModifyTable{T: w, Changes: []schema.Change{&schema.DropColumn{C: wc}}}
+			case op.add:
 				c = &schema.AddTable{T: tables[op.name]}
-			} else {
+			default:
 				c = &schema.DropTable{T: tables[op.name]}
 			}
 			f.Changes = append(f.Changes, &sqlcheck.Change{Changes: schema.Changes{c}, Stmt: &migrate.Stmt{Pos: 100 + i, Text: fmt.Sprint(op)}})
@@ -110,9 +119,23 @@ func TestGvcBoundedSpans(t *testing.T) {
 			}
 			return false
 		}
+		// what the per-name, per-file span bookkeeping yields (the finding): a drop is reported
+		// iff the final span of its name is not "temporary" (ADD assigns Added, DROP ors Dropped)
+		final := map[string]int{}
+		for _, op := range seq {
+			if op.add {
+				final[op.name] = 1
+			} else {
+				final[op.name] |= 2
+			}
+		}
 		isKnown := true
 		for i := range seq {
-			if inSet(got, i) != inSet(want, i) && !recreated[seq[i].name] {
+			if inSet(got, i) == inSet(want, i) {
+				continue
+			}
+			bySpans := !seq[i].add && final[seq[i].name] != 3
+			if !recreated[seq[i].name] || inSet(got, i) != bySpans {
 				isKnown = false
 			}
 		}
@@ -134,7 +157,9 @@ func TestGvcBoundedSpans(t *testing.T) {
 		if len(seq) > 0 {
 			for _, it := range []bool{false, true} {
 				for _, iu := range []bool{false, true} {
-					check(seq, map[string]bool{"t": it, "u": iu})
+					for _, ic := range []bool{false, true} {
+						check(seq, map[string]bool{"t": it, "u": iu, "w.c": ic})
+					}
 				}
 			}
 		}
